@@ -289,6 +289,7 @@ def run(idx: ProgramIndex, rep: Report, tier: str):
     kl_assembly(idx, rep)
     conditional_attributes(idx, rep)
     getitem_index_forms(idx, rep, M)
+    scale_tril_is_triangular(idx, rep, M)
 
 
 # ---- C10-5: a Cholesky factor carried over into a new distribution ------------------------------------------------------
@@ -824,3 +825,42 @@ def getitem_index_forms(idx: ProgramIndex, rep: Report, M: ClassInfo):
     rep.add("C10-10", "%s:MultivariateNormal.__getitem__[None entries]" % M.module.name, "%s:%d" % (fi.module.relpath, first_len or fi.node.lineno), handles_none,
             "None entries are handled before the index is counted" if handles_none else
             "len(%s) is compared with the rank of the mean although a None entry (new axis) adds a dimension instead of consuming one: dist[None, 0] (batch (3,)) takes the branch for an indexed event dimension and returns diag(diag(C[0])) - all cross-covariances dropped, silently; other placements raise" % ip, {})
+
+
+# ---- C10-11 --------------------------------------------------------------------------------------------------------
+def scale_tril_is_triangular(idx: ProgramIndex, rep: Report, M: ClassInfo):
+    """torch's MultivariateNormal computes log_prob, entropy, scale_tril and precision_matrix from `_unbroadcasted_scale_tril` with
+    TRIANGULAR solves and reads log|S| off its diagonal; expand / unsqueeze hand the factor on.  For lazily represented covariances
+    gpytorch fills that slot itself: what it stores there has to be a Cholesky factor.  A general root (root_decomposition().root) is the same
+    matrix for dense / diagonal / sum operators of ordinary size - which go through Cholesky - but not for RootLinearOperator(R) with a
+    non-triangular R, low-rank or Lanczos roots."""
+    rep.rule("C10-11", "what a lazy MultivariateNormal stores as the scale_tril of torch's distribution is a Cholesky (triangular) factor of the covariance, not a general root")
+    getter = None
+    for f in idx.all_functions():
+        if f.cls is M and f.name == "_unbroadcasted_scale_tril" and not any("setter" in src(d) for d in f.node.decorator_list):
+            getter = f
+    if getter is None:
+        raise AnalysisError("C10-11: MultivariateNormal._unbroadcasted_scale_tril getter vanished (anchor)")
+    stores = [a for a in ast.walk(getter.node) if isinstance(a, ast.Assign) and any(isinstance(t, ast.Attribute) and "unbroadcasted_scale_tril" in t.attr for t in a.targets)]
+    if not stores:
+        raise AnalysisError("C10-11: the getter no longer fills the scale_tril slot (anchor)")
+    probs = []
+    for a in stores:
+        exprs, seen = [a.value], set()
+        k = 0
+        while k < len(exprs):
+            e = exprs[k]
+            k += 1
+            for x in ast.walk(e):
+                if isinstance(x, ast.Name) and x.id not in seen:
+                    seen.add(x.id)
+                    exprs += [q.value for q in ast.walk(getter.node) if isinstance(q, ast.Assign) and any(isinstance(t, ast.Name) and t.id == x.id for t in q.targets)]
+        calls = [c for e in exprs for c in ast.walk(e) if isinstance(c, ast.Call)]
+        chol = any((isinstance(c.func, ast.Attribute) and c.func.attr == "cholesky") or (chain(c.func) or "").split(".")[-1] == "psd_safe_cholesky" for c in calls)
+        root = [c for c in calls if isinstance(c.func, ast.Attribute) and c.func.attr in ("root_decomposition", "root_inv_decomposition")] + [x for e in exprs for x in ast.walk(e) if isinstance(x, ast.Attribute) and x.attr == "root"]
+        if root or not chol:
+            probs.append("`%s`" % " ".join(src(a).split())[:80])
+    rep.add("C10-11", "%s:MultivariateNormal._unbroadcasted_scale_tril[getter]" % M.module.name, getter.where, not probs,
+            "the slot is filled with a Cholesky factor of the lazy covariance" if not probs else
+            "%s fills the scale_tril slot of torch's MultivariateNormal with a general root: log_prob on the Cholesky path, entropy, scale_tril, precision_matrix (and everything after expand / unsqueeze) treat it as triangular - wrong values for RootLinearOperator(R) with a non-triangular R, an error for a non-square root" % "; ".join(probs), {})
+    rep.floor("C10-11", "scale_tril slot", 1, 1)
